@@ -421,10 +421,11 @@ def shrink_scenario(pid, cfg, binp, scen_ops, workdir, known, nouf_bin=None, bud
         return cur
     tries = 0
     changed = True
-    while changed and tries < budget:
+    t_shrink = time.time()
+    while changed and tries < budget and time.time() - t_shrink < 180:        # shrinking is a convenience: at most three minutes of it
         changed = False
         for i in range(len(cur) - 1, -1, -1):
-            if cur[i].get("op") == "new" or tries >= budget:
+            if cur[i].get("op") == "new" or tries >= budget or time.time() - t_shrink > 180:
                 continue
             tries += 1
             cand = cur[:i] + cur[i + 1:]
